@@ -188,6 +188,16 @@ theorem asis_unbalanced_witness :
 
 /-! ## Clause 4 — compressed output has no line break before the final one -/
 
+/-- `Format::get_indent` is empty in compressed style for **every** length — within the 80
+preallocated columns and in the fallback branch alike (nesting deeper than 40 blocks).
+`compressed_no_newline` below goes through this (`doIndentNoNl_c`, `endBlock_rev_c`). -/
+theorem getIndent_compressed_every_depth (len : Nat) : getIndent .compressed len = [] :=
+  getIndent_compressed len
+
+/-- in expanded style both branches (table slice / built string) are a newline and `len` spaces -/
+theorem getIndent_expanded_every_depth (len : Nat) :
+    getIndent .expanded len = 10 :: List.replicate len 32 := getIndent_expanded len
+
 /-- No line break anywhere but at the very end, when no atom has one (custom-property values
 count as atoms here: the statement exempts them, the model cannot see inside them). -/
 theorem compressed_no_newline (q : WQuirks) (items : List Node)
